@@ -7,7 +7,7 @@
    functions the executable trace model (Model.v) runs against the real code on every check. *)
 From Coq Require Import List ZArith Bool Lia.
 From BLB Require Import Gen.Consts C05.GC C05.Proto.
-From BLB Require Cluster.Model Cluster.Sched C05.Model C05.Strict C05.Lift C05.LiftDel C05.Witness.
+From BLB Require Cluster.Model Cluster.Sched C05.Model C05.Strict C05.NonInt C05.Lift C05.LiftDel C05.Witness.
 Import ListNotations.
 Open Scope Z_scope.
 
@@ -216,20 +216,23 @@ Proof. vm_compute. repeat split; reflexivity. Qed.
    Schedules are those accepted by LiftDel.ok6_run:
      - every Cluster event accepted by Cluster.Sched.ok_ev at ladder level 4 (lost, duplicated and failed requests,
        delayed replies, restarts, leader changes, re-replication, fixVersion; carved out there: a superseded PullTract
-       taking effect = the F21 trigger, a crash inside PullTract, injected probes), admitted WHILE NO BLOB IS HIDDEN
-       (none marked deleted, none finally deleted so far);
+       taking effect = the F21 trigger, a crash inside PullTract, injected probes), at all times, provided it names no
+       HIDDEN blob (one marked deleted or finally deleted) where it matters (NonInt.ev_ok): no blob is created under a
+       hidden id, no curator task starts on a hidden blob, no RPC naming a hidden blob executes, no ChangeTract probe on it;
      - tract reports (event 40) and deliveries of any instruction of the soup at any later time, any number of times,
-       with or without disk fault (event 41), admitted at all times;
-     - DeleteBlob (42), UndeleteBlob (43), the scan of the metadata-GC loop (44) and the application of
-       FinishDeleteBefore with its cutoff re-check (45, the F18 repair), admitted at all times;
+       with or without disk fault, at any server (event 41), admitted at all times;
+     - DeleteBlob (42; admitted when no curator task on that blob exists), UndeleteBlob (43), the scan of the metadata-GC
+       loop (44) and the application of FinishDeleteBefore with its cutoff re-check (45, the F18 repair), at all times;
      - two side conditions of C05: a new blob does not take an id that an instruction already declared gone, and a
        gone-instruction does not execute while a client write on that same non-existent blob is in progress.
+   Cluster events on OTHER blobs (client writes, repairs, ...) run freely while a blob is marked deleted or after a final
+   deletion: NonInt.step_projd shows that such an event commutes with projecting the hidden records out.
    The RS events (46-51) are not in this alphabet: for them the Proto theorems above remain the only ones.
    LiftDel.vis_blob / vis_tract are the records as CheckForGarbage reads them (GetBlobAll view: blobs merely marked
    deleted included, finally deleted ones not).  Lift.removed x i f is the list of copies the delivery of instruction
    i removes at its server in state x (Lift.deliver_is_removed). *)
 
-(* [PARTIAL] c05_gc_safe_replicated over the trace model for the schedules just described including delete undelete and final deletion: a delivery that deletes a regular copy at the instruction's server finds the blob absent from the durable state marked deleted blobs counting as present or the tract inside the acknowledged length with that server not among its hosts at any version. Partial because Cluster events are admitted only while no blob is hidden because RS events are outside the predicate and because of the carve outs of Sched.ok_ev *)
+(* [PARTIAL] c05_gc_safe_replicated over the trace model for the schedules just described including delete undelete and final deletion: a delivery that deletes a regular copy at the instruction's server finds the blob absent from the durable state marked deleted blobs counting as present or the tract inside the acknowledged length with that server not among its hosts at any version. Partial: the residue beyond the inherited carve outs of Sched.ok_ev is that while a blob is hidden no RPC naming it executes and no task or probe on it starts and its id is not reused and DeleteBlob waits for the curator tasks on the blob and the two C05 side conditions and RS events are outside the predicate *)
 Theorem c05_gc_safe_replicated_cluster : forall evs,
   LiftDel.ok6_run C05.Model.init_x evs = true ->
   let x := Lift.xrun C05.Model.init_x evs in
@@ -252,7 +255,7 @@ Theorem c05_gc_keeps_uncommitted_repair_cluster : forall evs,
 Proof. exact LiftDel.keeps_uncommitted_repair_cluster6. Qed.
 Print Assumptions c05_gc_keeps_uncommitted_repair_cluster.
 
-(* [PARTIAL] c05_undelete_intact over the trace model: a blob that exists is deleted then any admitted events follow that is reports deliveries of instructions computed at any time deletes and undeletes of other blobs scans and final deletions and then an acknowledged undelete of the blob: the blob record every tract record and every copy at a durable host of its tracts are exactly what they were before the delete. Partial only through the schedule predicate *)
+(* [PARTIAL] c05_undelete_intact over the trace model: a blob that exists is deleted then any admitted events follow that is reports deliveries of instructions computed at any time deletes and undeletes of other blobs scans and final deletions and then an acknowledged undelete of the blob: the blob record every tract record and every copy at a durable host of its tracts are exactly what they were before the delete. Client writes and repairs of other blobs may run in between. Partial only through the schedule predicate whose residue is listed at c05_gc_safe_replicated_cluster *)
 Theorem c05_undelete_intact_cluster : forall evs1 evs2 b repl nt,
   LiftDel.ok6_run C05.Model.init_x (evs1 ++ [42; b] :: evs2 ++ [[43; b]]) = true ->
   (forall ev, In ev evs2 -> ev <> [43; b]) -> (b =? -2) = false ->
@@ -320,3 +323,22 @@ Example c05_lift_delete_nonvacuous :
   existsb (fun ev => hd 0 ev =? 42) C05.Witness.undelete_trace && existsb (fun ev => hd 0 ev =? 43) C05.Witness.undelete_trace &&
   existsb (fun ev => hd 0 ev =? 45) C05.Witness.undelete_trace && existsb (fun ev => hd 0 ev =? 4) C05.Witness.undelete_trace = true.
 Proof. vm_compute. repeat split; reflexivity. Qed.
+
+(* non-vacuity of the unrestricted delete alphabet: the trace of the harness case d-delete-busy recorded on the real code (94 events): while blob 0 is marked deleted blob 1 is written twice and repaired by a re-replication with its ChangeTract, every server reports, instructions are delivered; then blob 0 is undeleted and read *)
+Example c05_lift_delete_busy_nonvacuous :
+  LiftDel.ok6_run C05.Model.init_x C05.Witness.delete_busy_trace = true /\
+  C05.Model.x_del (Lift.xrun C05.Model.init_x C05.Witness.delete_busy_trace) = [] /\
+  existsb (fun ev => hd 0 ev =? 42) C05.Witness.delete_busy_trace && existsb (fun ev => hd 0 ev =? 43) C05.Witness.delete_busy_trace &&
+  existsb (fun ev => hd 0 ev =? 5) C05.Witness.delete_busy_trace && existsb (fun ev => hd 0 ev =? 3) C05.Witness.delete_busy_trace = true.
+Proof. vm_compute. repeat split; reflexivity. Qed.
+
+(* [FULL] non interference of the Cluster model with respect to hidden blobs for every event: if no curator task names a hidden blob and the event names none where it matters then stepping the state without the hidden records gives the projection of stepping the full state with the same observation and the hidden records and the task condition are untouched *)
+Theorem c05_step_commutes_with_hiding : forall h st ev,
+  C05.NonInt.T1 h st -> C05.NonInt.ev_ok h ev = true ->
+  Cluster.Model.step (C05.NonInt.projd h st) ev = (C05.NonInt.projd h (fst (Cluster.Model.step st ev)), snd (Cluster.Model.step st ev)) /\
+  C05.NonInt.hkeep h st (fst (Cluster.Model.step st ev)) /\ C05.NonInt.T1 h (fst (Cluster.Model.step st ev)).
+Proof.
+  intros h st ev T OK. destruct (C05.NonInt.step_projd h st ev T OK) as [(E & K & T') O].
+  split; [|split; assumption]. destruct (Cluster.Model.step (C05.NonInt.projd h st) ev) as [s1 o1]. cbn [fst snd] in *. subst. reflexivity.
+Qed.
+Print Assumptions c05_step_commutes_with_hiding.
